@@ -33,6 +33,12 @@ func corpus() [][]string {
 		// key iteration, prefix deletion, clear
 		{"ts set 1 10 -", "ts set 2 20 -", "ts set 258 30 -", "ts rawset 0001ff aa", "ts iterk - fwd 0 -", "ts iterk - bwd 0 -", "ts iterk 00 fwd 2 -",
 			"ts iterk - fwd 0 dec@1", "ts iterk - fwd 0 kv@2", "ts delp 00 kv1", "ts delp 0001 -", "ts iterk - fwd 0 -", "ts clear kv1", "ts clear -", "ts iter - fwd 0 -"},
+		// a store that reports its sentinel errors wrapped (callers must use errors.Is): absent key, then every op kind
+		{"tv store wrapped", "tv init none", "tv compute const 5 -", "tv get -", "tv del -", "tv compute incx 7 -", "tv reopen", "tv get -", "tv has -"},
+		{"tv store fmt", "tv init none", "tv get -", "tv compute ncx 3 -", "tv get -", "tv del -", "tv get -", "tv compute add 1 kv1", "tv compute add 1 -"},
+		{"tv store wrapped", "tv init none", "tv has -", "tv compute const 5 -", "tv reopen", "tv compute add 1 kv2", "tv get -"},
+		{"tp store wrapped", "tp init none", "tp compute new 5 -", "tp get -", "tp del -", "tp compute new 6 -", "tp reopen", "tp get -"},
+		{"ts store fmt", "ts get 1 -", "ts has 1 -", "ts set 1 10 -", "ts get 1 -", "ts del 1 -", "ts get 1 -", "ts get 1 kv1", "ts iter - fwd 0 kv1"},
 		{"ts set 65535 1 -", "ts set 1 18446744073709551615 -", "ts get 65535 -", "ts has 65535 -", "ts del 65535 -", "ts get 1 -", "ts del 1 -"},
 	}
 }
@@ -68,6 +74,9 @@ func exhaustiveTV() [][]string {
 			for _, op := range ops {
 				for _, ft := range faults {
 					c := []string{"tv init " + in}
+					if fl := len(out) % 3; fl != 0 { // a third of the table per store error flavour
+						c = []string{"tv store " + []string{"plain", "wrapped", "fmt"}[fl], "tv init " + in}
+					}
 					c = append(c, pre...)
 					c = append(c, "tv "+op+" "+ft, "tv get -", "tv has -", "tv reopen", "tv get -")
 					out = append(out, c)
@@ -172,6 +181,9 @@ func genTV(rng *hx.Rng) []string {
 	if rng.Bool() {
 		ops = append([]string{"tv codec scratch"}, ops...)
 	}
+	if rng.Chance(2, 5) {
+		ops = append([]string{"tv store " + hx.Pick(rng, []string{"wrapped", "fmt"})}, ops...)
+	}
 	n := rng.Range(6, 22)
 	for i := 0; i < n; i++ {
 		ft := genTVFaults(rng)
@@ -222,6 +234,9 @@ func genTS(rng *hx.Rng) []string {
 	var ops []string
 	if rng.Bool() {
 		ops = append(ops, "ts codec scratch")
+	}
+	if rng.Chance(2, 5) {
+		ops = append(ops, "ts store "+hx.Pick(rng, []string{"wrapped", "fmt"}))
 	}
 	n := rng.Range(8, 24)
 	for i := 0; i < n; i++ {
